@@ -410,9 +410,9 @@ theorem step_uinv (cfg : Cfg) {st : St α} (hI : RInv cfg st) (h : UInv st) : UI
           · rename_i k c hk
             unfold doCall
             cases c with
-            | next v => exact h2.frame (UFrame.trans (b := { (advance { st with pending := rest } it.due) with curCall := k, evs := (advance { st with pending := rest } it.due).evs ++ [EvR.call k (advance { st with pending := rest } it.due).clock] }) ⟨rfl, rfl, rfl⟩ (emit_uframe cfg _ _))
-            | error e => exact h2.frame (UFrame.trans (b := { (advance { st with pending := rest } it.due) with curCall := k, evs := (advance { st with pending := rest } it.due).evs ++ [EvR.call k (advance { st with pending := rest } it.due).clock] }) ⟨rfl, rfl, rfl⟩ (emit_uframe cfg _ _))
-            | completed => exact h2.frame (UFrame.trans (b := { (advance { st with pending := rest } it.due) with curCall := k, evs := (advance { st with pending := rest } it.due).evs ++ [EvR.call k (advance { st with pending := rest } it.due).clock] }) ⟨rfl, rfl, rfl⟩ (emit_uframe cfg _ _))
+            | next v => exact h2.frame (UFrame.trans (b := { (advance { st with pending := rest } it.due) with curCall := k, evs := (advance { st with pending := rest } it.due).evs ++ [EvR.call k (advance { st with pending := rest } it.due).clock (advance { st with pending := rest } it.due).observers.length] }) ⟨rfl, rfl, rfl⟩ (emit_uframe cfg _ _))
+            | error e => exact h2.frame (UFrame.trans (b := { (advance { st with pending := rest } it.due) with curCall := k, evs := (advance { st with pending := rest } it.due).evs ++ [EvR.call k (advance { st with pending := rest } it.due).clock (advance { st with pending := rest } it.due).observers.length] }) ⟨rfl, rfl, rfl⟩ (emit_uframe cfg _ _))
+            | completed => exact h2.frame (UFrame.trans (b := { (advance { st with pending := rest } it.due) with curCall := k, evs := (advance { st with pending := rest } it.due).evs ++ [EvR.call k (advance { st with pending := rest } it.due).clock (advance { st with pending := rest } it.due).observers.length] }) ⟨rfl, rfl, rfl⟩ (emit_uframe cfg _ _))
             | sub i => exact h2.frame ⟨rfl, rfl, rfl⟩
             | unsub i => exact h2.frame ⟨rfl, rfl, rfl⟩
             | dispose => exact h2.frame ⟨rfl, rfl, rfl⟩
@@ -535,9 +535,9 @@ theorem step_silent (cfg : Cfg) {st : St α} (hI : RInv cfg st) (i : Id) (hs : s
           · rename_i k c hk
             unfold doCall
             cases c with
-            | next v => exact (UFrame.trans (b := { (advance { st with pending := rest } it.due) with curCall := k, evs := (advance { st with pending := rest } it.due).evs ++ [EvR.call k (advance { st with pending := rest } it.due).clock] }) ⟨rfl, rfl, rfl⟩ (emit_uframe cfg _ _)).quiet hs2
-            | error e => exact (UFrame.trans (b := { (advance { st with pending := rest } it.due) with curCall := k, evs := (advance { st with pending := rest } it.due).evs ++ [EvR.call k (advance { st with pending := rest } it.due).clock] }) ⟨rfl, rfl, rfl⟩ (emit_uframe cfg _ _)).quiet hs2
-            | completed => exact (UFrame.trans (b := { (advance { st with pending := rest } it.due) with curCall := k, evs := (advance { st with pending := rest } it.due).evs ++ [EvR.call k (advance { st with pending := rest } it.due).clock] }) ⟨rfl, rfl, rfl⟩ (emit_uframe cfg _ _)).quiet hs2
+            | next v => exact (UFrame.trans (b := { (advance { st with pending := rest } it.due) with curCall := k, evs := (advance { st with pending := rest } it.due).evs ++ [EvR.call k (advance { st with pending := rest } it.due).clock (advance { st with pending := rest } it.due).observers.length] }) ⟨rfl, rfl, rfl⟩ (emit_uframe cfg _ _)).quiet hs2
+            | error e => exact (UFrame.trans (b := { (advance { st with pending := rest } it.due) with curCall := k, evs := (advance { st with pending := rest } it.due).evs ++ [EvR.call k (advance { st with pending := rest } it.due).clock (advance { st with pending := rest } it.due).observers.length] }) ⟨rfl, rfl, rfl⟩ (emit_uframe cfg _ _)).quiet hs2
+            | completed => exact (UFrame.trans (b := { (advance { st with pending := rest } it.due) with curCall := k, evs := (advance { st with pending := rest } it.due).evs ++ [EvR.call k (advance { st with pending := rest } it.due).clock (advance { st with pending := rest } it.due).observers.length] }) ⟨rfl, rfl, rfl⟩ (emit_uframe cfg _ _)).quiet hs2
             | sub j => exact ⟨rfl, hs2⟩
             | unsub j => exact ⟨rfl, hs2⟩
             | dispose => exact ⟨rfl, hs2⟩
